@@ -215,6 +215,31 @@ def run(ctx):
                     res.violations.append({"clause": "dba_loop raised", "use_c": uc, "got": r_})
                 elif r_ > mi:
                     res.violations.append({"clause": "loop performs at most max_it steps", "max_it": mi, "steps": r_})
+        # the recorded history of the loop: step j of keep_averages is what the loop returns after j+1 steps
+        if k % 4 == 1:
+            for uc in (False, True):
+                mi = rng.choice([3, 4, 5])
+                try:
+                    fin, avgs = dtw_barycenter.dba_loop(data, c=c_arr.copy(), max_it=mi, thr=None, mask=npmask,
+                                                        keep_averages=True, use_c=uc, **kw)
+                    avgs = [np.array(a, dtype=float).copy() for a in avgs]
+                    refs = [np.array(dtw_barycenter.dba_loop(data, c=c_arr.copy(), max_it=j + 1, thr=None, mask=npmask,
+                                                             use_c=uc, **kw), dtype=float) for j in range(len(avgs))]
+                except BaseException as e:
+                    if isinstance(e, (KeyboardInterrupt, SystemExit)):
+                        raise
+                    res.violations.append({"clause": "dba_loop(keep_averages) raised", "use_c": uc,
+                                           "got": impl.exc_name(e) + ":" + str(e)[:80]})
+                    continue
+                res.hit("loop_history")
+                if len(avgs) > mi:
+                    res.violations.append({"clause": "loop performs at most max_it steps", "max_it": mi, "steps": len(avgs)})
+                bad_j = [j for j, (a, b) in enumerate(zip(avgs, refs)) if a.shape != b.shape or not np.array_equal(a, b)]
+                if bad_j or (avgs and not np.array_equal(np.array(fin, dtype=float), avgs[-1])):
+                    res.violations.append({"clause": "every recorded step of dba_loop(keep_averages=True) is the average "
+                                                     "the loop returns after that many steps, the result is the last one",
+                                           "use_c": uc, "series": series, "c": c0, "mask": mask, "kwargs": repr(kw),
+                                           "max_it": mi, "differing_steps": bad_j})
         res.sample({"series": series, "c": c0, "mask": mask, "kwargs": kw, "model": out["cells"]}, limit=3)
     return res
 
